@@ -94,7 +94,11 @@ def _covers(top, bot):
             return False
         if not cr.port_set(b[f]) <= cr.port_set(t[f]):
             return False
-    return set(t["flags"]) <= set(b["flags"]) if t["flags"] else True
+    # TCP flags are match-any (DESIGN 5): a top entry with flags covers a bottom entry whose (non-empty) flag set
+    # is contained in its own; a top entry without flags covers everything
+    if not t["flags"]:
+        return True
+    return bool(b["flags"]) and set(b["flags"]) <= set(t["flags"])
 
 
 def _regroup(rules, by):
